@@ -6,7 +6,6 @@ import (
 	"encoding/binary"
 	"fmt"
 	"io"
-	"os"
 	"path/filepath"
 	"sort"
 	"strconv"
@@ -522,7 +521,7 @@ func (r *TOASTReader) LoadTOASTTableFromFile(toastRelID uint32) error {
 	basePath := filepath.Join(r.dataDir, "base", strconv.FormatUint(uint64(r.dbOID), 10))
 	toastPath := filepath.Join(basePath, strconv.FormatUint(uint64(toastRelID), 10))
 	
-	data, err := os.ReadFile(toastPath)
+	data, err := readRegularFile(toastPath)
 	if err != nil {
 		return err
 	}
@@ -658,7 +657,7 @@ func GetTOASTVerboseInfo(toastRelID uint32, data []byte) *TOASTVerboseInfo {
 // AnalyzeTOAST analyzes TOAST usage for a database
 func AnalyzeTOAST(dataDir, dbName string) ([]TOASTInfo, error) {
 	// Find database OID
-	dbData, err := os.ReadFile(filepath.Join(dataDir, "global", "1262"))
+	dbData, err := readRegularFile(filepath.Join(dataDir, "global", "1262"))
 	if err != nil {
 		return nil, err
 	}
@@ -677,7 +676,7 @@ func AnalyzeTOAST(dataDir, dbName string) ([]TOASTInfo, error) {
 	basePath := filepath.Join(dataDir, "base", strconv.FormatUint(uint64(dbOID), 10))
 	
 	// Read pg_class to find TOAST tables
-	classData, err := os.ReadFile(filepath.Join(basePath, "1259"))
+	classData, err := readRegularFile(filepath.Join(basePath, "1259"))
 	if err != nil {
 		return nil, err
 	}
@@ -700,7 +699,7 @@ func AnalyzeTOAST(dataDir, dbName string) ([]TOASTInfo, error) {
 		
 		// Try to read the TOAST table
 		toastPath := filepath.Join(basePath, strconv.FormatUint(uint64(toastRelID), 10))
-		toastData, err := os.ReadFile(toastPath)
+		toastData, err := readRegularFile(toastPath)
 		if err != nil {
 			continue
 		}
